@@ -5,7 +5,7 @@ ROOT = os.path.dirname(os.path.dirname(os.path.abspath(__file__)))
 
 CHECKS = {
  "C01": ("stateful PBT over registration histories on a run-time programmable type family + builder histories + retain/round-trip closure, invariant checked after every step (proptest); libFuzzer targets retain, reg_struct in thorough",
-         "Exploration: generated histories of register_type / register_types / map_into_portable over generated cyclic type graphs (16 programmable node types x 44 wrapper shapes), builder histories under the documented discipline, retain masks and round trips; wf (id == index, resolve positional and total, every reference < n) is evaluated on Registry::types() after every operation and on every produced PortableRegistry.",
+         "Exploration: generated histories of register_type / register_types / map_into_portable over generated cyclic type graphs (16 programmable node types x 72 wrapper shapes covering every built-in constructor; also long histories of 280-640 distinct targets), builder histories under the documented discipline, retain masks and round trips; wf (id == index, resolve positional and total, every reference < n) is evaluated on Registry::types() after every operation and on every produced PortableRegistry.",
          "Trusted: the family's type_info() is built with the public builders from a generated spec. Rust types cannot be created at run time, so 'all types' is sampled through 16 programmable node types and the built-in constructors around them.", "2/C01"),
  "C02": ("PBT with two independent oracles over generated type graphs: harness-owned description of each type identity, and coinductive comparison of MetaType::type_info() with the portable entries (proptest); supervisor for termination",
          "Exploration over histories on cyclic / mutually recursive generated graphs: every id handed out is walked through every reference and each entry is compared with (1) what the harness spec says the type is and (2) the type's own type_info().",
@@ -32,7 +32,7 @@ CHECKS = {
          "Exploration over (program, feature-set pair): 160 programs x 15 pairs (quick); every distinct feature set in the thorough tier. Docs on/off compared modulo documentation strings.",
          "Host builds only (no Wasm target in the image); the derive feature is always on.", "2/C15"),
  "C16": ("PBT over triples of types: ==, cmp, hash, type_id against the independently computed declared identity TypeId::of::<T::Identity>(), plus coherence of definitions (proptest)",
-         "Exploration over triples drawn from 44 shapes x 16 nodes (with aliases and nested wrappers) under generated specs: equality/order/hash laws and 'same declared identity => equal type_info()'.",
+         "Exploration over triples drawn from 72 shapes x 16 nodes (with aliases and nested wrappers) under generated specs: equality/order/hash laws and 'same declared identity => equal type_info()'.",
          "The declared identity is computed in the harness through a generic visitor, not through MetaType.", "2/C16"),
  "C06": ("differential PBT against a hand-written V14 reference encoder/decoder (proptest) + libFuzzer target reg_struct in thorough",
          "Exploration: tens of thousands (quick) to millions (thorough) of generated registries, wild and well-formed, are encoded by the library and by an independent reference codec written from the published layout; both directions are compared byte for byte. Sound for every registry explored; not a proof.",
